@@ -6,7 +6,9 @@ namespace Dltype
 /-- `Class[...].check` accepts the dtype (row = class index, column = global dtype index) -/
 def genAcc : Acc := fun cls dt =>
   match Gen.accRows[cls]? with
-  | some row => row[dt.code]?.getD false
+  -- (a dtype outside the observed table — an abstract scalar class, `typing.Any` — is in no class's `DTYPES`: it is accepted exactly
+  --  by the classes that restrict nothing, i.e. whose row accepts every observed dtype)
+  | some row => row[dt.code]?.getD (row.all id)
   | none => false
 
 end Dltype
